@@ -2443,6 +2443,8 @@ class ProvDocument(ProvBundle):
         bundle._namespaces.parent = self._namespaces
 
         valid_id = bundle.valid_qualified_name(identifier)
+        if valid_id is None:
+            raise ProvException("Invalid bundle identifier: %s" % identifier)
         # IMPORTANT: Rewriting the bundle identifier for consistency
         bundle._identifier = valid_id
 
